@@ -1,6 +1,19 @@
 /-
   C15 — number sets behave as mathematical sets.  Property theorems only; helper lemmas live
-  under GoImap/Lemmas.
+  under GoImap/Lemmas (NumSet*.lean).
+
+  Status: all seven target groups are proved at full strength against the unmodified model
+  `GoImap/Model/NumSet.lean`; nothing is missing or partial, and no model definition made a
+  target false.
+    1. merge_union, merge_fail
+    2. search_first (with canon_iff_canonical: the Prop `Canon` used by the lemmas is `canonical`)
+    3. insert_canonical, addNum_canonical, addRange_canonical, addSet_canonical, canonical_run
+    4. insert_mem, mem_union, dynamic_iff
+    5. nums_spec, nums_dynamic
+    6. digits_round_trip, parse_print
+    7. parse_sound
+  Each theorem with hypotheses is followed by an `example` exhibiting a concrete value that
+  meets them.
 -/
 import GoImap.Model.NumSet
 import GoImap.Spec.NumSet
@@ -12,6 +25,7 @@ import GoImap.Lemmas.NumSetNums
 import GoImap.Lemmas.NumSetInsert
 import GoImap.Lemmas.NumSetOps
 import GoImap.Lemmas.NumSetPrint
+import GoImap.Lemmas.NumSetParse
 namespace GoImap.C15
 open GoImap.NumSet GoImap.NumSetSpec
 
@@ -124,7 +138,8 @@ theorem addSet_canonical (s t : NumSet.Set) (hc : canonical s = true) (ht : cano
     canonical (addSet s t) = true :=
   (canonical_iff _).2 (applyOp_canon s (.set t) ((canonical_iff s).1 hc) ht)
 
-example : canonical (addRange [⟨1, 3⟩] 0 2) = true ∧ addRange [⟨1, 3⟩] 9 5 = [⟨1, 3⟩, ⟨5, 9⟩] ∧
+example : canonical [⟨1, 3⟩] = true ∧ canonical [⟨4, 4⟩, ⟨8, 0⟩] = true ∧
+    addNum [⟨1, 3⟩] 4 = [⟨1, 4⟩] ∧ canonical (addRange [⟨1, 3⟩] 0 2) = true ∧ addRange [⟨1, 3⟩] 9 5 = [⟨1, 3⟩, ⟨5, 9⟩] ∧
     addSet [⟨1, 3⟩] [⟨4, 4⟩, ⟨8, 0⟩] = [⟨1, 4⟩, ⟨8, 0⟩] := by decide
 
 /-- every sequence of operations from the empty set ends in canonical form -/
@@ -168,8 +183,14 @@ theorem dynamic_iff (ops : List Op) (hok : ∀ o ∈ ops, OpOk o) :
   rw [← this]
   exact dynamic_eq_any _ 0 h1
 
-example : contains (NumSet.insert [⟨1, 3⟩, ⟨7, 9⟩] ⟨4, 5⟩) 5 = true ∧
-    contains [⟨1, 3⟩, ⟨7, 9⟩] 5 = false ∧ (⟨4, 5⟩ : Range).contains 5 = true := by decide
+example : canonical [⟨1, 3⟩, ⟨7, 9⟩] = true ∧ Range.Valid ⟨4, 5⟩ ∧
+    contains (NumSet.insert [⟨1, 3⟩, ⟨7, 9⟩] ⟨4, 5⟩) 5 = true ∧
+    contains [⟨1, 3⟩, ⟨7, 9⟩] 5 = false ∧ (⟨4, 5⟩ : Range).contains 5 = true := by
+  refine ⟨by decide, by simp [Range.Valid, W], by decide, by decide, by decide⟩
+
+example : contains (run [Op.num 5, Op.range 0 9, Op.set [⟨1, 2⟩]]) 11 = true ∧
+    memOps [Op.num 5, Op.range 0 9, Op.set [⟨1, 2⟩]] 11 = true ∧
+    dynamic (run [Op.num 5, Op.range 0 9, Op.set [⟨1, 2⟩]]) = true := by decide
 
 /-! ### 6. the text form of a canonical set parses back to the same set -/
 
@@ -188,5 +209,30 @@ theorem parse_print (s : NumSet.Set) (hc : canonical s = true) (hne : s ≠ []) 
 example : canonical [⟨1, 3⟩, ⟨5, 5⟩, ⟨4294967295, 0⟩] = true ∧
     toStr [⟨1, 3⟩, ⟨5, 5⟩, ⟨4294967295, 0⟩] = "1:3,5,4294967295:*" := by
   refine ⟨by decide, by decide +kernel⟩
+
+/-! ### 7. `ParseSet` accepts exactly the RFC `sequence-set` texts and denotes them -/
+
+theorem parse_sound (t : List Char) :
+    (seqSetText t = none → parseSet t = none) ∧
+    (∀ items, seqSetText t = some items →
+      ∃ s, parseSet t = some s ∧ canonical s = true ∧
+        (∀ q, 0 < q → q < W → contains s q = memText items q) ∧
+        dynamic s = starText items) := by
+  obtain ⟨h1, h2⟩ := parseItems_sound (splitOn ',' t) [] trivial
+  refine ⟨h1, ?_⟩
+  intro items hi
+  obtain ⟨s, e, hc, hden⟩ := h2 items hi
+  refine ⟨s, e, (canonical_iff s).2 hc, ?_, ?_⟩
+  · intro q hq hqW
+    rw [contains_eq_any s 0 hc q (by omega), hden q hqW, List.any_nil, Bool.false_or,
+      any_itemDen_pos items q (by omega)]
+  · rw [dynamic_eq_any s 0 hc, hden 0 (by decide), List.any_nil, Bool.false_or,
+      any_itemDen_zero items]
+
+example : seqSetText "7:3,*,12".toList = some [(7, 3), (0, 0), (12, 12)] ∧
+    parseSet "7:3,*,12".toList = some [⟨3, 7⟩, ⟨12, 12⟩, ⟨0, 0⟩] ∧
+    seqSetText "1:2:3".toList = none ∧ seqSetText "01".toList = none ∧
+    seqSetText "4294967296".toList = none := by
+  decide +kernel
 
 end GoImap.C15
